@@ -31,10 +31,12 @@
 #include "configuration.h"
 #include "message.h"
 
+#include <fcntl.h>
 #include <limits.h>
 #include <stdio.h>
 #include <stdlib.h>
 #include <string.h>
+#include <unistd.h>
 
 
 
@@ -55,8 +57,10 @@ int snoopy_output_fileoutput (char const * const logMessage, char const * const 
 {
     char   filePathBuf[PATH_MAX] = {'\0'};
     char * filePath = filePathBuf;
-    FILE  *fp;
-    int    charCount;
+    int    fd;
+    size_t recordLength;
+    char  *record;
+    ssize_t charCount;
 
     // Check if output file is properly configured
     if (0 == strcmp(arg, "")) {
@@ -66,14 +70,29 @@ int snoopy_output_fileoutput (char const * const logMessage, char const * const 
     // Parse the output file specification (i.e. for %{datetime} or similar tags)
     snoopy_message_generateFromFormat(filePath, PATH_MAX, PATH_MAX, arg);
 
-    // Try to open file in append mode
-    fp = fopen(filePath, "a");
-    if (NULL == fp) {
+    // Assemble the whole record (message + newline) first...
+    recordLength = strlen(logMessage) + 1;
+    record = malloc(recordLength);
+    if (NULL == record) {
+        return SNOOPY_OUTPUT_FAILURE;
+    }
+    memcpy(record, logMessage, recordLength - 1);
+    record[recordLength - 1] = '\n';
+
+    // Try to open file in append mode (same flags and mode as fopen(..., "a"))
+    fd = open(filePath, O_WRONLY|O_CREAT|O_APPEND, 0666);
+    if (-1 == fd) {
+        free(record);
         return SNOOPY_OUTPUT_FAILURE;
     }
 
-    // Try to print to file
-    charCount = fprintf(fp, "%s\n", logMessage);
-    fclose(fp);
-    return charCount;
+    // ...and hand it to the kernel with a single write() on the O_APPEND descriptor: that is one atomic append,
+    // so records of concurrent writers never interleave. (stdio splits records longer than its buffer.)
+    charCount = write(fd, record, recordLength);
+    close(fd);
+    free(record);
+    if (charCount < 0) {
+        return SNOOPY_OUTPUT_FAILURE;
+    }
+    return (int) charCount;
 }
